@@ -53,11 +53,13 @@ inductive MStep where
   | push (k n : Nat)
   | register (keys : List Nat)
   | look (i : Nat)            -- the look after registering, of the client at position i
-  | retry (i : Nat)           -- a woken client acts on its mwake-up
+  | retry (i : Nat)           -- a woken client acts on its wake-up
+  | reenter (i : Nat)         -- a client woken in vain links itself into its queues again and looks once more
   | steal (k : Nat)           -- a non-blocking pop by somebody else
   | leave (i : Nat)           -- timeout / CLIENT UNBLOCK / disconnect
 
-def mstep (passAcross : Bool) (s : MState) : MStep → MState
+def mstep (passAcross : Bool) (s : MState) (st : MStep) (lookAgain : Bool := true) : MState :=
+  match st with
   | .push k n => { len := incLen s.len k n, cs := mwake k n s.cs }
   | .register keys => { s with cs := s.cs ++ [{ keys := keys, pending := true, token := none, queued := true }] }
   | .look i =>
@@ -83,7 +85,16 @@ def mstep (passAcross : Bool) (s : MState) : MStep → MState
         | some j =>
           { len := decLen s.len j,
             cs := if passAcross && j != k then mwake k 1 (s.cs.eraseIdx i) else s.cs.eraseIdx i }
-        | none => { s with cs := s.cs.set i { c with token := none, queued := true } }   -- woken in vain: back into its queues, same place
+        | none => { s with cs := s.cs.set i { c with token := none } }   -- woken in vain: still in no queue until it re-registers
+  | .reenter i =>
+    match s.cs[i]? with
+    | none => s
+    | some c =>
+      -- `reenterListBlock` and the look that follows it (`lookAgain`; without it — a seeded change — a push that
+      -- landed while the client was in no queue is never noticed)
+      if !c.queued && c.token.isNone && !c.pending then
+        { s with cs := s.cs.set i { c with queued := true, pending := lookAgain } }
+      else s
   | .steal k => { s with len := decLen s.len k }
   | .leave i =>
     match s.cs[i]? with
@@ -92,7 +103,8 @@ def mstep (passAcross : Bool) (s : MState) : MStep → MState
       if c.pending then s else
       { s with cs := if c.token.isSome then mwakeEach c.keys (s.cs.eraseIdx i) else s.cs.eraseIdx i }
 
-def mrun (passAcross : Bool) (s : MState) (steps : List MStep) : MState := steps.foldl (mstep passAcross) s
+def mrun (passAcross : Bool) (s : MState) (steps : List MStep) (lookAgain : Bool := true) : MState :=
+  steps.foldl (fun s st => mstep passAcross s st lookAgain) s
 
 /-- mwake-ups raised by key `k` and not acted on yet -/
 def tokens (k : Nat) (cs : List MC) : Nat := cs.countP fun c => c.token == some k
